@@ -357,7 +357,8 @@ def c14(ctx):
             first = next(x for x in want_in if x.id == n.id)
             if f is not first:
                 bad.append({"tree": core.tuple_str(t), "query": "find_id"})
-        for cls in (X.ConstantExpression, X.AddExpression, X.BinaryExpression, X.VariableExpression):
+        for cls in (X.ConstantExpression, X.AddExpression, X.BinaryExpression, X.VariableExpression,
+                    X.UnaryExpression, X.FunctionExpression, X.MathExpression, X.NegateExpression, X.PowerExpression):
             got = py.find_type(cls)
             if [id(x) for x in got] != [id(x) for x in want_in if isinstance(x, cls)]:
                 bad.append({"tree": core.tuple_str(t), "query": "find_type " + cls.__name__})
@@ -694,6 +695,13 @@ def c15(ctx):
 
 
 # ----------------------------------------------------------------------------- C13
+
+
+def _safe_str(n):
+    try:
+        return str(n)[:200]
+    except Exception:  # noqa
+        return "?"
 
 
 def expr_signature(n):
@@ -1048,6 +1056,45 @@ def c13(ctx):
         if {id(o) for o in objects(c)} & {id(o) for o in nodes.values()}:
             bad.append({"shape": shape_wire(s), "problem": "generic clone shares objects"})
         n_eval += 1
+    # trees of the real expression classes over every shape, unary nodes holding their operand on EITHER side
+    # (`child_on_left` both ways; the parser only builds the right-handed kind): clone() and clone_from_root
+    # through every node keep shape, classes, sides and ids, and return the copy of the node asked for
+    erng = random.Random(ctx.seed * 5 + 131)
+    n_expr = 0
+    for s in all_shapes(5 if quick else 6):
+        for _rep in range(2):
+            nodes = {}
+            try:
+                root = build_expression(s, nodes, lambda k: erng.randrange(k))
+            except Exception:  # noqa
+                continue
+            sig = expr_signature(root)
+            n_expr += 1
+            try:
+                if expr_signature(root.clone()) != sig:
+                    bad.append({"shape": shape_wire(s), "expression": _safe_str(root), "problem": "clone signature differs "
+                                "(expression classes, operands on either side)"})
+            except Exception as e:  # noqa
+                bad.append({"shape": shape_wire(s), "problem": "clone raised " + type(e).__name__})
+                continue
+            for k, node in nodes.items():
+                try:
+                    got = node.clone_from_root()
+                except Exception as e:  # noqa
+                    bad.append({"shape": shape_wire(s), "node": k, "problem": "clone_from_root raised " + type(e).__name__})
+                    continue
+                n_eval += 1
+                newroot = got.get_root()
+                if expr_signature(newroot) != sig:
+                    bad.append({"shape": shape_wire(s), "node": k, "expression": _safe_str(root),
+                                "problem": "clone_from_root: the copy is not the tree (shape / class / operand side / id)"})
+                elif path_to(got) != path_to(node):
+                    bad.append({"shape": shape_wire(s), "node": k, "problem": "clone_from_root: returned node is not the "
+                                "copy of the given node", "want_path": path_to(node), "got_path": path_to(got)})
+                if expr_signature(root) != sig:
+                    bad.append({"shape": shape_wire(s), "node": k, "problem": "clone_from_root changed the original"})
+                    break
+    ctx.notes["expression_class_shapes_cloned"] = n_expr
     ctx.coverage["evaluations"] += n_eval
     ctx.coverage["distinct_nontrivial"] += nontrivial
     ctx.coverage["traces_validated_against_impl"] += n_eval
